@@ -26,7 +26,8 @@ TRANSPARENT_NAMES = {
     'new_debug', 'unsize', 'must_use', 'next', 'next_back', 'peek',
 }
 TRANSPARENT_TYPES = ('Option', 'Result', 'Rc', 'Weak', 'RefCell', 'Ref', 'RefMut', 'Vec', 'String', 'str', 'Box',
-                     'Cell', 'OnceCell', '[T]', 'Cow', 'Iter', 'IterMut', 'Arc', 'hint', 'Argument', 'ControlFlow')
+                     'Cell', 'OnceCell', '[T]', 'Cow', 'Iter', 'IterMut', 'Arc', 'hint', 'Argument', 'ControlFlow',
+                     'HashMap', 'HashSet', 'BTreeMap', 'BTreeSet', 'VecDeque')
 
 
 def default_transparent(cs):
